@@ -4,6 +4,9 @@
 //!                   client layer sent again: duplicated request / retry).
 //!  * `GatedLock`  — a `CommitLock` whose `lock()` / `release()` are gate calls; the lock is granted only when it
 //!                   is free and held until released (the CommitLock contract: mutual exclusion, no expiry).
+//!                   With `checks`, `lock(v)` answers `CommitConflict` instead of granting the lock when the
+//!                   manifest of version `v` already exists ("return CommitConflict if the version has already
+//!                   been committed") — the contract allows both kinds of lock.
 #![allow(dead_code)]
 
 use std::fmt;
@@ -13,7 +16,7 @@ use std::sync::{Arc, Mutex};
 use async_trait::async_trait;
 use futures::stream::BoxStream;
 use lance_core::Error;
-use lance_table::io::commit::{CommitError, CommitLease, CommitLock};
+use lance_table::io::commit::{CommitError, CommitLease, CommitLock, ManifestNamingScheme};
 use object_store::path::Path;
 use object_store::{
     GetOptions, GetResult, ListResult, MultipartUpload, ObjectMeta, ObjectStore, PutMultipartOptions, PutOptions,
@@ -127,6 +130,8 @@ pub type LockCell = Arc<Mutex<Option<usize>>>;
 pub struct GatedLock {
     pub cell: LockCell,
     pub h: GateHandle,
+    /// a lock service that knows the table: (ungated store, table base path)
+    pub checks: Option<(Arc<dyn ObjectStore>, Path)>,
 }
 
 pub struct GatedLease {
@@ -144,17 +149,26 @@ impl CommitLock for GatedLock {
             if f == Fault::FailBefore {
                 return Err(injected("lock"));
             }
-            let granted = {
+            let committed = match &self.checks {
+                Some((store, base)) => store.head(&ManifestNamingScheme::V2.manifest_path(base, version)).await.is_ok(),
+                None => false,
+            };
+            let (granted, refused) = {
                 let mut g = self.cell.lock().unwrap();
-                if g.is_none() {
+                if g.is_none() && committed {
+                    (false, true)
+                } else if g.is_none() {
                     *g = Some(self.h.task);
-                    true
+                    (true, false)
                 } else {
-                    false
+                    (false, false)
                 }
             };
             if f == Fault::LostResponse {
                 return Err(injected("lock"));
+            }
+            if refused {
+                return Err(CommitError::CommitConflict);
             }
             if granted {
                 return Ok(GatedLease { cell: self.cell.clone(), h: self.h.clone() });
